@@ -102,6 +102,14 @@ impl Prop for C18 {
     fn floor(&self, tier: Tier) -> u64 {
         tier.pick(20, 400)
     }
+    fn post(&self, ctx: &Ctx) -> Option<CaseOut> {
+        if ctx.tier != Tier::Thorough {
+            return None;
+        }
+        let mut out = CaseOut::default();
+        crate::sanit::tsan_batches(ctx, &mut out);
+        Some(out)
+    }
     fn assumptions(&self) -> Vec<String> {
         vec!["schedules are sampled and perturbed, not enumerated; the race detector pass (TSan build) runs in the thorough tier only".into()]
     }
